@@ -53,7 +53,9 @@ func Harness_C01_precert() {
 	leaf.Extensions = []pkix.Extension{{Id: x509.OIDExtensionCTPoison, Critical: true, Value: asn1.NullBytes}}
 	finalIssuer := envChain[1]
 	if preIssuer {
-		envChain[1].ExtKeyUsage = []x509.ExtKeyUsage{x509.ExtKeyUsageCertificateTransparency}
+		envChain[1].ExtKeyUsage = [][]x509.ExtKeyUsage{
+			{x509.ExtKeyUsageCertificateTransparency},
+			{x509.ExtKeyUsageServerAuth, x509.ExtKeyUsageCertificateTransparency}}[vChoice("preissuer-ekus", 2)]
 		finalIssuer = envChain[2]
 	}
 	defanged := vBytes("defanged-tbs", 1+vChoice("tbs-len", 2))
